@@ -70,6 +70,7 @@ def choices(tree: ber.Node) -> t.List[Choice]:
             if note.get("extensible"):
                 out.append((i, "junk", "prim"))
                 out.append((i, "junk", "cons"))
+                out.append((i, "junk", "hightag"))  # multi-octet identifier + long-form length on the unknown element
     return out
 
 
@@ -98,6 +99,10 @@ def render(tree: ber.Node, chosen: t.Sequence[Choice]) -> bytes:
         elif kind == "junk":
             if opt == "prim":
                 n.children.append(ber.Node(ber.CONTEXT, False, 25, b"\x01\x02"))
+            elif opt == "hightag":
+                # content chosen so that a mis-read length would expose bytes that parse as further elements
+                inner = ber.encode(ber.Node(ber.CONTEXT, True, 0, None, [ber.Node(ber.UNIVERSAL, True, 16, None, [ber.Node(ber.UNIVERSAL, False, 4, b"9.9"), ber.Node(ber.UNIVERSAL, False, 1, b"\xff")])]))
+                n.children.append(ber.Node(ber.CONTEXT, False, 1024, inner + b"\x00" * (130 - len(inner)), lenform="82"))
             else:
                 n.children.append(ber.Node(ber.CONTEXT, True, 26, None, [ber.Node(ber.UNIVERSAL, False, 4, b"zz")]))
 
@@ -215,6 +220,7 @@ def _work(job: t.Tuple[str, int, int]) -> evid.Local:
             todo = [()] + [(c,) for c in ch]
             uni = [tuple((i, "len", f) for i in range(nn)) for f in ("84", "82", "81", "85")]
             uni.append(tuple(c for c in ch if c[1] == "junk" and c[2] == "prim"))
+            uni.append(tuple(c for c in ch if c[1] == "junk" and c[2] == "hightag"))
             uni.append(tuple(c for c in ch if c[1] == "default"))
             uni.append(tuple(c for c in ch if c[1] == "true" and c[2] == b"\x01"))
             todo = list(todo) + [u for u in uni if u]
@@ -228,7 +234,7 @@ def _work(job: t.Tuple[str, int, int]) -> evid.Local:
             for i in range(nn):
                 per.append([None, (i, "len", "84")])
             for c in ch:
-                if c[1] != "len" and not (c[1] == "true" and c[2] == b"\x80") and not (c[1] == "junk" and c[2] == "cons"):
+                if c[1] != "len" and not (c[1] == "true" and c[2] == b"\x80") and not (c[1] == "junk" and c[2] in ("cons", "hightag")):
                     per.append([None, c])
             todo = (tuple(c for c in combo if c is not None) for combo in itertools.product(*per))
         for chosen in todo:
@@ -286,7 +292,7 @@ def run(ctx: evid.Ctx) -> None:
         "one case = one assignment of encoding freedoms to the nodes of one base message's reference TLV tree, rendered to "
         "bytes and decoded by the library; distinct_nontrivial counts distinct (message kind, set of freedoms used)"
     )
-    ctx.bounds = {"length_forms": ["min"] + LENFORMS, "true_octets": ["ff", "01", "80"], "trailing": ["[25] primitive", "[26] constructed"],
+    ctx.bounds = {"length_forms": ["min"] + LENFORMS, "true_octets": ["ff", "01", "80"], "trailing": ["[25] primitive", "[26] constructed", "[1024] primitive, 0x82 length"],
                   "singles_on": "full(2)+dev(1) of U", "pairs_on": "rich + default messages with <= %d nodes%s" % (40 if thorough else 25, " and every full(2)+dev(1) message" if thorough else ""),
                   "product_on": "messages with <= %d nodes (lengths min|0x84 x every other freedom on|off)" % (11 if thorough else 9)}  # fmt: skip
     ctx.assumptions = [
